@@ -35,6 +35,7 @@ type Canon struct {
 	// beyond len are only ever overwritten (by append) before being read.
 	LenOnlyFields map[string]bool
 	lenOnly       bool
+	plans         map[reflect.Type][]fieldPlan
 	buf           []byte
 	ptrs       map[ptrKey]int
 }
@@ -245,27 +246,53 @@ func (c *Canon) walkAt(v reflect.Value, p unsafe.Pointer) {
 	}
 }
 
+type fieldPlan struct {
+	skip     bool
+	lenOnly  bool
+	exported bool
+}
+
+func (c *Canon) plan(t reflect.Type) []fieldPlan {
+	if c.plans == nil {
+		c.plans = map[reflect.Type][]fieldPlan{}
+	}
+	if p, ok := c.plans[t]; ok {
+		return p
+	}
+	p := make([]fieldPlan, t.NumField())
+	for i := range p {
+		sf := t.Field(i)
+		name := t.Name() + "." + sf.Name
+		p[i] = fieldPlan{skip: c.SkipFields[name], lenOnly: c.LenOnlyFields[name] && sf.Type.Kind() == reflect.Slice, exported: sf.IsExported()}
+	}
+	c.plans[t] = p
+	return p
+}
+
 func (c *Canon) walkStruct(v reflect.Value) {
 	t := v.Type()
+	plan := c.plan(t)
 	c.buf = append(c.buf, '{')
-	for i := 0; i < t.NumField(); i++ {
-		sf := t.Field(i)
-		if c.SkipFields[t.Name()+"."+sf.Name] {
+	var cp reflect.Value
+	for i := range plan {
+		if plan[i].skip {
 			continue
 		}
 		f := v.Field(i)
-		if !sf.IsExported() {
+		if !plan[i].exported {
 			if f.CanAddr() {
 				f = reflect.NewAt(f.Type(), unsafe.Pointer(f.UnsafeAddr())).Elem()
 			} else {
 				// Not addressable: copy the struct to make it so.
-				cp := reflect.New(t).Elem()
-				cp.Set(v)
+				if !cp.IsValid() {
+					cp = reflect.New(t).Elem()
+					cp.Set(v)
+				}
 				f = cp.Field(i)
 				f = reflect.NewAt(f.Type(), unsafe.Pointer(f.UnsafeAddr())).Elem()
 			}
 		}
-		if c.LenOnlyFields[t.Name()+"."+sf.Name] && f.Kind() == reflect.Slice {
+		if plan[i].lenOnly {
 			c.lenOnly = true
 		}
 		c.walk(f)
